@@ -2,7 +2,7 @@
    Only theorem statements here; proofs are in Proofs.v.  Byte strings are lists of N with
    every element < 256 (bytes_ok) and a length that fits `unsigned int`. *)
 From OlaBase Require Import Bytes.
-From C05 Require Import Gen Model Proofs Ext Proofs2 Proofs3 Ser Proofs4.
+From C05 Require Import Gen Model Proofs Ext Proofs2 Proofs3 Ser Proofs4 Proofs5.
 Local Open Scope N_scope.
 
 (* Side obligations tying the regenerated constants to the numbers the property and the model's
@@ -536,6 +536,57 @@ Theorem c05_null_param_data : forall c n,
 Proof. exact null_data_constructible. Qed.
 Print Assumptions c05_null_param_data.
 
+(* ---- fourth (short) proof round ------------------------------------------------------------- *)
+
+(* The three equality operators.  RDMCommand::operator== ("decodes to an equal command") holds exactly
+   when every field except the port id / response type agrees; RDMFrame::operator== exactly when the
+   data and all four timing words agree; RDMReply::operator== exactly when the decode results agree
+   (both rejected with the same status, or both accepted with ==-equal responses) and the frame lists
+   are equal; two replies decoded by FromFrame (same request) are equal iff their frames are. *)
+Theorem c05_equality_operators : forall (a b : cmd) (f g : frame) (x y : res * list frame) rq,
+  (cmd_eq_cpp a b = true <->
+     c_src a = c_src b /\ c_dst a = c_dst b /\ c_tn a = c_tn b /\ c_mc a = c_mc b /\ c_sub a = c_sub b /\
+     c_cc a = c_cc b /\ c_pid a = c_pid b /\ c_data a = c_data b) /\
+  (frame_eq f g = true <-> f = g) /\
+  (reply_eq x y = true <-> res_eq (fst x) (fst y) = true /\ snd x = snd y) /\
+  (reply_eq (reply_from_frame rq f) (reply_from_frame rq g) = true <-> f = g).
+Proof.
+  intros a b f g x y rq.
+  split; [exact (cmd_eq_cpp_iff a b)|]. split; [exact (frame_eq_iff f g)|].
+  split; [exact (reply_eq_iff x y)|exact (reply_from_frame_eq rq f g)].
+Qed.
+Print Assumptions c05_equality_operators.
+
+(* NackWithReason(response, reason): for every constructible response the result is a constructible
+   NACK_REASON response with the 16-bit reason big-endian, which round-trips through
+   RDMResponse::InflateFromData (pointer and ByteString overloads) and is matched to every request
+   the original response corresponded to. *)
+Theorem c05_nack_response : forall r reason,
+  wf_cmd r = true -> is_response_cc (c_cc r) = true ->
+  let n := nack_response r reason in
+  c_port n = RDM_NACK_REASON /\ c_data n = be_bytes 2 (u16 reason) /\
+  exists bs, pack n = Some bs /\ inflate_response None bs = Ok n /\ inflate_response_bs None bs = Ok n /\
+    forall rq, corresponds rq r -> inflate_response (Some rq) bs = Ok n.
+Proof. exact nack_response_roundtrip. Qed.
+Print Assumptions c05_nack_response.
+
+(* Duplicate() is the identity on (override options, fields), so it serialises identically; the
+   setters (SetSourceUID/SetTransactionNumber/SetPortId, SetDestinationUID/SetTransactionNumber)
+   keep a command constructible, so every round-trip theorem applies to the modified command; the
+   ByteString overload of RDMResponse::InflateFromData is the pointer version on data()/size(). *)
+Theorem c05_duplicate_setters : forall oc c src dst tn port rq bs,
+  duplicate oc = oc /\
+  (wf_cmd c = true -> src < 2^48 -> tn < 256 -> port < 256 -> wf_cmd (set_request c src tn port) = true) /\
+  (wf_cmd c = true -> dst < 2^48 -> tn < 256 -> wf_cmd (set_response c dst tn) = true) /\
+  inflate_response_bs rq bs = inflate_response rq bs.
+Proof.
+  intros oc c src dst tn port rq bs.
+  split; [exact (proj1 (duplicate_id oc))|].
+  split; [exact (set_request_wf c src tn port)|].
+  split; [exact (set_response_wf c dst tn)|reflexivity].
+Qed.
+Print Assumptions c05_duplicate_setters.
+
 (* ---- non-vacuity: concrete instances meeting the hypotheses *)
 Definition ex_cmd : cmd :=
   {| c_dst := 0x7a7000000001; c_src := 0x00010000002a; c_tn := 7; c_port := 1; c_mc := 0;
@@ -619,3 +670,12 @@ Example ex_override_ml :
   | Some a, Some b => inflate a = Reject RDM_PACKET_LENGTH_MISMATCH /\ inflate b = Reject RDM_CHECKSUM_INCORRECT
   | _, _ => False end.
 Proof. vm_compute. split; reflexivity. Qed.
+
+(* fourth round examples *)
+Example ex_frame_neq :
+  frame_eq {| f_data := [204; 1]; f_timing := (1, 2, 3, 4) |} {| f_data := [204; 1]; f_timing := (1, 2, 3, 5) |} = false /\
+  frame_eq {| f_data := [204; 1]; f_timing := (1, 2, 3, 4) |} {| f_data := [204; 1]; f_timing := (1, 2, 3, 4) |} = true.
+Proof. split; reflexivity. Qed.
+Example ex_nack_response : wf_cmd ex_resp = true /\ is_response_cc (c_cc ex_resp) = true /\
+  c_data (nack_response ex_resp 5) = [0; 5].
+Proof. repeat split. Qed.
